@@ -132,6 +132,7 @@ func gen(prop, tier string, r *Rng, out *bufio.Writer, st *Stats) {
 		genC10Routes(w, r, tier)
 		genHugePool(g, r, tier)
 		genBulkPool(g, r, tier)
+		genConcurrentPool(g, r, tier)
 	case "C12":
 		genC12(w, r, tier)
 		genC12Overlap(w, r, tier)
